@@ -191,7 +191,11 @@ class CsCheck:
                 else:
                     core2 = self.lit_sub(core)
                     if core2 != e:
-                        self.fail("C# type differs from the mapped metamodel type", {"structure": name, "property": pn, "got": core2, "expected": e})
+                        if "LIT{" in e and len(pn) <= 3:
+                            # dotnet generate_name() drops name parts of <= 3 letters
+                            self.fail("anonymous literal type of a property with a name of <= 3 letters is emitted under another class's name", {"structure": name, "property": pn, "got": core2, "expected": e})
+                        else:
+                            self.fail("C# type differs from the mapped metamodel type", {"structure": name, "property": pn, "got": core2, "expected": e})
                 if cp["name"] not in c["assigns"]:
                     self.fail("member not assigned in the JSON constructor", {"structure": name, "property": pn, "member": cp["name"]})
         for name, e in mm.E.items():
